@@ -502,7 +502,8 @@ class SQLiteModel(data_algebra.db_model.DBModel):
                 temp_id_source=temp_id_source,
                 sql_format_options=sql_format_options,
             )
-        if join_node.jointype == "FULL":
+        if (join_node.jointype == "FULL") and (sqlite3.sqlite_version_info < (3, 39, 0)):
+            # SQLite has FULL JOIN since 3.39.0; older engines get the emulation
             return self._emit_full_join_as_complex(
                 join_node,
                 using=using,
